@@ -328,6 +328,82 @@ func runC10(c *Ctx) {
 		c.ob("C10-R4", vmPkg+".VM.runLoop#pc-bounded-by-code-length", rl.Pos(), ok, "the execution loop does not test pc < len(code)")
 	}
 
+	// ---- R11 a full stack is reported
+	c.rule("C10-R11", "ERR: whatever the compiler emits is executed completely, or refused: the VM's Push caps the stack, and a value that does not fit must not vanish - the capacity-exceeded path of Push returns an error, panics, or records the overflow in a field of the VM that the run loop tests (with an error return behind the test). A push that is silently dropped leaves every later instruction working on a stack the compiler did not describe: an N-element literal with N above the cap yields a bogus `stack underflow`, or a wrong value")
+	if push := c.mustFn("C10-R11", vmPkg, "VM.Push"); push != nil {
+		reported := false
+		var recordedIn []string
+		isLenStack := func(v ssa.Value) bool {
+			cl, ok := v.(*ssa.Call)
+			return ok && callName(cl) == "builtin.len" && loadedFromField(cl.Call.Args[0], "VM", "stack")
+		}
+		found := false
+		for _, b := range push.Blocks {
+			iff := ifOf(b)
+			if iff == nil {
+				continue
+			}
+			bo, ok := iff.Cond.(*ssa.BinOp)
+			if !ok || !(isLenStack(bo.X) || isLenStack(bo.Y)) {
+				continue
+			}
+			found = true
+			// the full side: the successor from which the append is not reachable
+			for _, succ := range b.Succs {
+				q := &pathQuery{fn: push, target: func(x ssa.Instruction) bool { return isCallTo(x, "builtin.append") }}
+				if h, _ := q.from(succ, 0); h != nil {
+					continue
+				}
+				q2 := &pathQuery{fn: push, target: func(x ssa.Instruction) bool {
+					switch y := x.(type) {
+					case *ssa.Panic:
+						reported = true
+					case *ssa.Return:
+						if len(y.Results) > 0 && !isNilConst(stripConv(retVals(y)[len(y.Results)-1])) {
+							reported = true
+						}
+					case *ssa.Store:
+						if nt, f, ok := fieldOf(y.Addr); ok && nt != nil && nt.Obj().Name() == "VM" && f != "stack" {
+							recordedIn = append(recordedIn, f)
+						}
+					}
+					return false
+				}}
+				q2.from(succ, 0)
+			}
+		}
+		if !reported && len(recordedIn) > 0 {
+			// the recorded overflow is tested where instructions are run, with an error return behind the test
+			for _, name := range []string{"VM.runLoop", "VM.step", "VM.executeInstruction"} {
+				fn := c.fn(vmPkg, name)
+				if fn == nil {
+					continue
+				}
+				for _, b := range fn.Blocks {
+					iff := ifOf(b)
+					if iff == nil {
+						continue
+					}
+					for _, f := range recordedIn {
+						fld := f
+						if derivesFrom(iff.Cond, func(v ssa.Value) bool { return loadedFromField(v, "VM", fld) }) {
+							for _, succ := range b.Succs {
+								q := &pathQuery{fn: fn, target: func(x ssa.Instruction) bool {
+									r, ok := x.(*ssa.Return)
+									return ok && len(r.Results) > 0 && !isNilConst(stripConv(retVals(r)[len(r.Results)-1])) && r.Block() == succ
+								}}
+								if h, _ := q.from(succ, 0); h != nil {
+									reported = true
+								}
+							}
+						}
+					}
+				}
+			}
+		}
+		c.ob("C10-R11", vmPkg+".VM.Push#a-value-that-does-not-fit-is-reported", push.Pos(), found && reported, "Push drops a value when the stack is full and nothing records it: the program goes on with a stack that misses values - a literal or call with more elements than the cap ends in a bogus `stack underflow` or in a wrong result, where the interpreter runs the same source correctly")
+	}
+
 	// ---- R5 parser recursion
 	c.rule("C10-R10", "LOOP-PROGRESS: every loop of the parser and the lexers whose continuation depends on the cursor (its body or header consults check / peek / isAtEnd / the position or the input index) consumes input or leaves on every way around: no path from the loop head back to it avoids every instruction that moves the cursor (a store to Parser.position / Lexer.position / readPosition, or a call to a method of the same type that - transitively - makes one). An input on which some branch neither advances nor fails makes Parse spin on one token for ever")
 	{
